@@ -144,6 +144,8 @@ class Model:
         self.norm = normalise.Normaliser(
             {k: v[2] for k, v in parsed.items()},
             normalise.known_functions()).run()
+        self.norm.unrolled = normalise.unroll_callable_loops(
+            {k: v[2] for k, v in parsed.items()})
         for name, (path, src, tree) in parsed.items():
             for n in ast.walk(tree):
                 for c in ast.iter_child_nodes(n):
